@@ -1,0 +1,34 @@
+//go:build verif
+
+package encoding
+
+// Contracts of the b6vc verifier (/verif): //@ comment blocks keyed by
+// function name and loop ordinal. "extern" blocks are contracts of functions
+// in other packages; those of encoding/binary are not assumed but proved
+// against the standard library source on every run (units of C09 with the
+// loops unrolled to the operand width and unwinding assertions on).
+
+//@ func uvLen
+//@   opaque at
+//@   extent uvLen
+//@ func uvOK
+//@   opaque at
+//@   extent uvLen
+//@ func uvVal
+//@   opaque at
+//@   extent uvLen
+
+//@ extern encoding/binary.PutUvarint
+//@   proved
+//@   requires uvlen(x) <= len(buf)
+//@   modifies buf
+//@   ensures result == uvlen(x)
+//@   ensures uvOK(buf, 0) && uvVal(buf, 0) == x && uvLen(buf, 0) == uvlen(x)
+//@   ensures unchanged(buf, result, len(buf))
+//@   loop 1 unroll 10
+
+//@ extern encoding/binary.Uvarint
+//@   proved
+//@   pure
+//@   ensures implies(uvOK(buf, 0) && uvLen(buf, 0) <= len(buf), result0 == uvVal(buf, 0) && result1 == uvLen(buf, 0))
+//@   loop 1 unroll 11
